@@ -37,7 +37,7 @@ PARSER = "octave_mcp.core.parser"
 
 FOLLOW = {"NEWLINE": "\n", "COMMA": ",", "LIST_END": "]", "EOF": None}
 KINDS = ("NUMBER", "STRING", "BOOLEAN", "NULL", "IDENTIFIER", "VARIABLE")
-_VALUE = {"NUMBER": VF.AnyVal, "STRING": VF.Str, "BOOLEAN": VF.Bool, "NULL": lambda: VF.Const(None), "IDENTIFIER": VF.Str, "VARIABLE": VF.Str}
+_VALUE = {"NUMBER": VF.AnyVal, "STRING": VF.Str, "BOOLEAN": VF.Bool, "NULL": lambda: VF.Const(None), "IDENTIFIER": VF.Str, "VARIABLE": VF.Str, "COMMENT": VF.Str}
 _FIXED = {"LIST_START": "[", "LIST_END": "]", "COMMA": ",", "ASSIGN": "::", "NEWLINE": "\n", "EOF": None, "BLOCK": ":"}
 
 
@@ -63,6 +63,8 @@ def _toks(spine: list) -> list:
             out.append(_sym(k))
         elif isinstance(s, tuple) and s[0] == "int":
             out.append(_tok(k, VF.Int()))
+        elif isinstance(s, tuple) and s[0] == "intval":
+            out.append(_tok(k, VF.Const(s[1]), VF.Const(str(s[1]))))
         else:
             out.append(_tok(k, VF.Const(s)))
     return out
@@ -476,6 +478,178 @@ def document_lenient(kind: str, variant: str) -> VF.FunctionContract:
         },
         raises=(),
     )
+
+
+# ---- further spines: comments, operator expressions, section markers, block targets -------------------------------------
+OPS = {"FLOW": "→", "SYNTHESIS": "⊕", "AT": "@", "CONCAT": "⧺", "TENSION": "⇌", "CONSTRAINT": "∧", "ALTERNATIVE": "∨"}
+
+
+def with_comments(kind: str) -> VF.FunctionContract:
+    """===DOC=== / // lead / KEY::<scalar> // trail / ===END===: the comments are attached to the assignment, text untouched"""
+    spine = [("ENVELOPE_START", "DOC"), ("NEWLINE", None), ("COMMENT", "sym"), ("NEWLINE", None), ("IDENTIFIER", "sym"), ("ASSIGN", None), (kind, "sym"), ("COMMENT", "sym"), ("NEWLINE", None), ("ENVELOPE_END", "END"), ("NEWLINE", None), ("EOF", None)]
+    toks = _toks(spine)
+
+    def sec(r):
+        return S.items(S.attr(r, "sections"))
+
+    def pre(a):
+        return S.And(_pre([6] if kind == "NUMBER" else [], depth=False)(a), S.Not(S.str_eq(S.attr(_tk(a, 4), "value"), "META")))
+
+    def lead(r):
+        lc = S.attr(sec(r)[0], "leading_comments")
+        return S.items(lc) if not isinstance(lc, list) else lc
+
+    return VF.FunctionContract(
+        PARSER,
+        "Parser.parse_document",
+        label=f"#DOC[// c / KEY::{kind} // c]",
+        inline_depth=8,
+        params={"self": _parser(toks, nested=False)},
+        pre=pre,
+        posts={
+            "one-assignment": lambda a, r: _cls(r) == "Document" and len(sec(r)) == 1 and _cls(sec(r)[0]) == "Assignment",
+            "value-is-token-value": lambda a, r: len(sec(r)) == 1 and _same(S.attr(sec(r)[0], "value"), S.attr(_tk(a, 6), "value")),
+            "leading-comment-is-the-comment-token-text": lambda a, r: len(sec(r)) == 1 and len(lead(r)) == 1 and S.str_eq(lead(r)[0], S.attr(_tk(a, 2), "value")),
+            "trailing-comment-is-the-comment-token-text": lambda a, r: len(sec(r)) == 1 and S.str_eq(S.attr(sec(r)[0], "trailing_comment"), S.attr(_tk(a, 7), "value")),
+            "no-document-trailing-comments": lambda a, r: len(S.items(S.attr(r, "trailing_comments")) if not isinstance(S.attr(r, "trailing_comments"), list) else S.attr(r, "trailing_comments")) == 0,
+        },
+        raises=(),
+    )
+
+
+def expression(ops: tuple) -> VF.FunctionContract:
+    """KEY :: A op B [op C]  ->  the value is the operand and operator texts concatenated, in order, nothing added"""
+    spine = [("IDENTIFIER", "sym"), ("ASSIGN", None), ("IDENTIFIER", "sym")]
+    for o in ops:
+        spine += [(o, OPS[o]), ("IDENTIFIER", "sym")]
+    spine += [("NEWLINE", None), ("EOF", None)]
+    toks = _toks(spine)
+    idx = list(range(2, 3 + 2 * len(ops)))
+
+    def joined(a):
+        vs = [S.attr(_tk(a, i), "value") for i in idx]
+        if S.symbolic(*vs):
+            return z3.Concat(*[v if V.is_z3(v) else z3.StringVal(v) for v in vs])
+        return "".join(vs)
+
+    def pre(a):
+        cs = []
+        for i in idx[::2]:
+            v = S.attr(_tk(a, i), "value")
+            cs.append(S.Not(z3.Contains(v, z3.StringVal("<"))) if S.symbolic(v) else "<" not in v)
+        return S.And(*cs)
+
+    return VF.FunctionContract(
+        PARSER,
+        "Parser.parse_section",
+        label="#KEY::A" + "".join(OPS[o] + "X" for o in ops),
+        inline_depth=8,
+        params={"self": _parser(toks, nested=False), "base_indent": VF.Const(0)},
+        pre=pre,
+        posts={
+            "is-assignment": lambda a, r: _cls(r) == "Assignment",
+            "value-is-the-tokens-concatenated": lambda a, r: _cls(r) == "Assignment" and S.str_eq(S.attr(r, "value"), joined(a)),
+        },
+        raises=(),
+    )
+
+
+def section_marker(kind: str) -> VF.FunctionContract:
+    """§ <number> :: NAME / indented KEY::<scalar>  ->  Section(section_id = str(number), key = NAME, [Assignment])"""
+    spine = [("SECTION", "§"), ("NUMBER", ("intval", 7)), ("ASSIGN", None), ("IDENTIFIER", "sym"), ("NEWLINE", None), ("INDENT", 2), ("IDENTIFIER", "sym"), ("ASSIGN", None), (kind, "sym"), ("NEWLINE", None), ("EOF", None)]
+    toks = _toks(spine)
+
+    def ch(r):
+        return S.items(S.attr(r, "children"))
+
+    return VF.FunctionContract(
+        PARSER,
+        "Parser.parse_section",
+        label=f"#§7::NAME[KEY::{kind}]",
+        inline_depth=8,
+        setup=lambda I: setattr(I, "recursion_ok", {PARSER + ":Parser.parse_section"}),
+        params={"self": _parser(toks, nested=False), "base_indent": VF.Const(0)},
+        pre=_pre([8] if kind == "NUMBER" else [], depth=False),
+        posts={
+            "is-section-with-one-assignment": lambda a, r: _cls(r) == "Section" and len(ch(r)) == 1 and _cls(ch(r)[0]) == "Assignment",
+            "section-id": lambda a, r: _cls(r) == "Section" and S.str_eq(S.attr(r, "section_id"), "7"),
+            "section-name-is-name-token-text": lambda a, r: _cls(r) == "Section" and S.str_eq(S.attr(r, "key"), S.attr(_tk(a, 3), "value")),
+            "child-key-is-key-token-text": lambda a, r: _cls(r) == "Section" and len(ch(r)) == 1 and S.str_eq(S.attr(ch(r)[0], "key"), S.attr(_tk(a, 6), "value")),
+            "child-value-is-token-value": lambda a, r: _cls(r) == "Section" and len(ch(r)) == 1 and _same(S.attr(ch(r)[0], "value"), S.attr(_tk(a, 8), "value")),
+        },
+        raises=(),
+    )
+
+
+def block_target(kind: str) -> VF.FunctionContract:
+    """NAME [ → § TARGET ] : / indented KEY::<scalar>  ->  Block(NAME, target = TARGET, [Assignment])"""
+    spine = [("IDENTIFIER", "sym"), ("LIST_START", None), ("FLOW", "→"), ("SECTION", "§"), ("IDENTIFIER", "sym"), ("LIST_END", None), ("BLOCK", None), ("NEWLINE", None), ("INDENT", 2), ("IDENTIFIER", "sym"), ("ASSIGN", None), (kind, "sym"), ("NEWLINE", None), ("EOF", None)]
+    toks = _toks(spine)
+
+    def ch(r):
+        return S.items(S.attr(r, "children"))
+
+    return VF.FunctionContract(
+        PARSER,
+        "Parser.parse_section",
+        label=f"#NAME[→§T]:[KEY::{kind}]",
+        inline_depth=8,
+        setup=lambda I: setattr(I, "recursion_ok", {PARSER + ":Parser.parse_section"}),
+        params={"self": _parser(toks, nested=False), "base_indent": VF.Const(0)},
+        pre=_pre([11] if kind == "NUMBER" else [], depth=False),
+        posts={
+            "is-block-with-one-assignment": lambda a, r: _cls(r) == "Block" and len(ch(r)) == 1 and _cls(ch(r)[0]) == "Assignment",
+            "block-key": lambda a, r: _cls(r) == "Block" and S.str_eq(S.attr(r, "key"), S.attr(_tk(a, 0), "value")),
+            "target-is-target-token-text": lambda a, r: _cls(r) == "Block" and S.str_eq(S.attr(r, "target"), S.attr(_tk(a, 4), "value")),
+            "child-value-is-token-value": lambda a, r: _cls(r) == "Block" and len(ch(r)) == 1 and _same(S.attr(ch(r)[0], "value"), S.attr(_tk(a, 11), "value")),
+        },
+        raises=(),
+    )
+
+
+# ---- holographic pattern lists: layout tokens never reach the reconstructed pattern (C03) ----------------------------------
+def _holo_spine(layout: str):
+    """[ "example" ∧ REQ → § TARGET ]  written on one line, one item per line (any indent widths), or with a comment line"""
+    core = [("STRING", "sym"), ("CONSTRAINT", "∧"), ("IDENTIFIER", "REQ"), ("FLOW", "→"), ("SECTION", "§"), ("IDENTIFIER", "sym")]
+    if layout == "one-line":
+        body = core
+    elif layout == "multi-line":
+        body = [("NEWLINE", None), _indent("n1")] + core + [("NEWLINE", None), _indent("n2")]
+    elif layout == "split":
+        body = [("NEWLINE", None), _indent("n1")] + core[:3] + [("NEWLINE", None), _indent("n2")] + core[3:] + [("NEWLINE", None)]
+    else:  # comment
+        body = [("NEWLINE", None), _indent("n1"), ("COMMENT", "sym"), ("NEWLINE", None), _indent("n2")] + core + [("NEWLINE", None), _indent("n3")]
+    spine = [("LIST_START", None)] + body + [("LIST_END", None)]
+    ex = next(i for i, (k, s_) in enumerate(spine) if k == "STRING")
+    tg = max(i for i, (k, s_) in enumerate(spine) if k == "IDENTIFIER" and s_ == "sym")
+    return spine, ex, tg
+
+
+def holographic_reconstruct(layout: str) -> VF.FunctionContract:
+    spine, ex, tg = _holo_spine(layout)
+    toks = _toks(spine)
+
+    def tk(a, i):
+        t = a.token_slice
+        return S.items(t)[i] if hasattr(t, "items") and not isinstance(t, list) else t[i]
+
+    def expected(a):
+        e, t = S.attr(tk(a, ex), "value"), S.attr(tk(a, tg), "value")
+        if S.symbolic(e, t):
+            return z3.Concat(z3.StringVal('["'), e, z3.StringVal('"∧REQ→§'), t, z3.StringVal("]"))
+        return f'["{e}"∧REQ→§{t}]'
+
+    return VF.FunctionContract(
+        PARSER,
+        "Parser._reconstruct_pattern_from_tokens",
+        label=f"#holographic[{layout}]",
+        params={"self": _parser([_fix("EOF")], nested=False), "token_slice": VF.FixedList(*toks)},
+        posts={"pattern-is-the-one-line-spelling": lambda a, r: S.str_eq(r, expected(a))},
+        raises=(),
+    )
+
+
+HOLO_LAYOUTS = ("one-line", "multi-line", "split", "comment")
 
 
 def pairs(thorough: bool) -> list[tuple]:
